@@ -310,13 +310,20 @@ package ir
 //@   loop 0: invariant range_i > 0 ==> val == gival(index.Elems[0])
 //@ # ==== generated by /verif/tools/gen_gep_contracts.py: end ====
 
+//@ # ---------------------------------------------------------------- C11 (quoted strings of package ir) ---
+//@ # Every quoted string the printer of package ir emits (section, partition, gc, syncscope, inline and module asm,
+//@ # attribute strings, source_filename, datalayout, triple, operand-bundle tags) is enc.Quote of the string.
+//@ func quote
+//@   props C11
+//@   assigns nothing
+//@   ensures exists(v bytepred, enc.quotedLike(v) && enc.isQuoted(result, s, v))
 //@ # ---------------------------------------------------------------- C19 (WriteTo) ---
 //@ # n is exactly the number of bytes the writer accepted, err the first error it returned, and
 //@ # no Write happens after the first failure (ghost writer state, specs/stdlib.spec).
 //@ func (*Module).WriteTo
 //@   props C19
 //@   keeps written, wcalls, firsterr, wafter
-//@   opaque LLString, String, Ident
+//@   opaque LLString, String, Ident, !AssignIDs
 //@   assigns caches, ghost(written), ghost(wcalls), ghost(firsterr), ghost(wafter), ghost(nvid), ghost(idwrites), ghost(mdid), ghost(held)
 //@   requires m != nil && w != nil && firsterr(w) == nil && wfGlobalIDs(m) && wfMetadataIDs(m)
 //@   requires forall(k, 0, len(m.TypeDefs), m.TypeDefs[k] != nil) && forall(k, 0, len(m.ComdatDefs), m.ComdatDefs[k] != nil) && forall(k, 0, len(m.Globals), m.Globals[k] != nil)
@@ -325,6 +332,7 @@ package ir
 //@   requires forall(k, 0, len(m.UseListOrders), m.UseListOrders[k] != nil) && forall(k, 0, len(m.UseListOrderBBs), m.UseListOrderBBs[k] != nil)
 //@   panics when true
 //@   ensures n == written(w) - old(written(w)) && err == firsterr(w) && wafter(w) == old(wafter(w))
+//@   # loop 0 assigns the local IDs of the function definitions up front (no output)
 //@   loop 0: invariant 0 <= range_i && fw != nil && fw.w == w && fw.size == written(w) - old(written(w)) && fw.err == firsterr(w) && wafter(w) == old(wafter(w))
 //@   loop 1: invariant 0 <= range_i && fw != nil && fw.w == w && fw.size == written(w) - old(written(w)) && fw.err == firsterr(w) && wafter(w) == old(wafter(w))
 //@   loop 2: invariant 0 <= range_i && fw != nil && fw.w == w && fw.size == written(w) - old(written(w)) && fw.err == firsterr(w) && wafter(w) == old(wafter(w))
@@ -333,11 +341,12 @@ package ir
 //@   loop 5: invariant 0 <= range_i && fw != nil && fw.w == w && fw.size == written(w) - old(written(w)) && fw.err == firsterr(w) && wafter(w) == old(wafter(w))
 //@   loop 6: invariant 0 <= range_i && fw != nil && fw.w == w && fw.size == written(w) - old(written(w)) && fw.err == firsterr(w) && wafter(w) == old(wafter(w))
 //@   loop 7: invariant 0 <= range_i && fw != nil && fw.w == w && fw.size == written(w) - old(written(w)) && fw.err == firsterr(w) && wafter(w) == old(wafter(w))
-//@   loop 8: invariant (cap(mdNames) == 0 || fresh(mdNames)) && fw != nil && fw.w == w && fw.size == written(w) - old(written(w)) && fw.err == firsterr(w) && wafter(w) == old(wafter(w))
-//@   loop 9: invariant 0 <= range_i && fw != nil && fw.w == w && fw.size == written(w) - old(written(w)) && fw.err == firsterr(w) && wafter(w) == old(wafter(w))
+//@   loop 8: invariant 0 <= range_i && fw != nil && fw.w == w && fw.size == written(w) - old(written(w)) && fw.err == firsterr(w) && wafter(w) == old(wafter(w))
+//@   loop 9: invariant (cap(mdNames) == 0 || fresh(mdNames)) && fw != nil && fw.w == w && fw.size == written(w) - old(written(w)) && fw.err == firsterr(w) && wafter(w) == old(wafter(w))
 //@   loop 10: invariant 0 <= range_i && fw != nil && fw.w == w && fw.size == written(w) - old(written(w)) && fw.err == firsterr(w) && wafter(w) == old(wafter(w))
 //@   loop 11: invariant 0 <= range_i && fw != nil && fw.w == w && fw.size == written(w) - old(written(w)) && fw.err == firsterr(w) && wafter(w) == old(wafter(w))
 //@   loop 12: invariant 0 <= range_i && fw != nil && fw.w == w && fw.size == written(w) - old(written(w)) && fw.err == firsterr(w) && wafter(w) == old(wafter(w))
+//@   loop 13: invariant 0 <= range_i && fw != nil && fw.w == w && fw.size == written(w) - old(written(w)) && fw.err == firsterr(w) && wafter(w) == old(wafter(w))
 
 //@ # ---------------------------------------------------------------- C06 (extractvalue) ---
 //@ # LLVM's rule: extractvalue steps through struct fields and array elements, one index per level.
@@ -584,6 +593,20 @@ package ir
 //@   requires aliasee != nil && typeis(vtype(aliasee), "*types.PointerType")
 //@   assigns caches
 //@   ensures result != nil && fresh(result) && result.GlobalName == name && result.GlobalID == 0 && result.Aliasee == aliasee && boxed(result.Typ) == vtype(aliasee)
+//@ # an ifunc has the type of the pointer its resolver returns (LLVM: `@i = ifunc T, T* ()* @resolver` has type T*)
+//@ macro ifuncOK(rt types.Type) bool = typeis(rt, "*types.PointerType") && cast(rt, "*types.PointerType") != nil && typeis(cast(rt, "*types.PointerType").ElemType, "*types.FuncType") && cast(cast(rt, "*types.PointerType").ElemType, "*types.FuncType") != nil && typeis(cast(cast(rt, "*types.PointerType").ElemType, "*types.FuncType").RetType, "*types.PointerType") && cast(cast(cast(rt, "*types.PointerType").ElemType, "*types.FuncType").RetType, "*types.PointerType") != nil
+//@ macro ifuncTy(rt types.Type) *types.PointerType = cast(cast(cast(rt, "*types.PointerType").ElemType, "*types.FuncType").RetType, "*types.PointerType")
+//@ func (*IFunc).Type
+//@   props C03 C06 C14
+//@   requires i != nil && i.Resolver != nil && i.GlobalID >= 0 && ifuncOK(vtype(i.Resolver))
+//@   requires i.Typ == nil || i.Typ == ifuncTy(vtype(i.Resolver))
+//@   assigns caches
+//@   ensures boxed(i.Typ) == result && i.Typ == ifuncTy(vtype(i.Resolver))
+//@ func NewIFunc
+//@   props C03
+//@   requires resolver != nil && ifuncOK(vtype(resolver))
+//@   assigns caches
+//@   ensures result != nil && fresh(result) && result.GlobalName == name && result.GlobalID == 0 && result.Resolver == resolver && result.Typ == ifuncTy(vtype(resolver))
 //@ # a function's signature lists the parameter types in order; its type is a pointer to the signature
 //@ func NewFunc
 //@   props C03
